@@ -28,6 +28,21 @@ fn s(b: &[u8]) -> String {
     String::from_utf8(b.to_vec()).unwrap()
 }
 
+/// the shift as the documented duration syntax: a sign, then one or more `<n> <unit>` components (the sign applies to the sum)
+fn render_duration(sh: i64) -> String {
+    let sign = if sh < 0 { "-" } else if sh % 2 == 0 { "+" } else { "" };
+    let mut rest = sh.unsigned_abs();
+    if rest < 60 || rest % 7 == 3 || rest > 1_000_000_000 { return format!("{}{} seconds", sign, rest); }
+    let units: [(u64, &str, &str); 5] = [(604800, "week", "weeks"), (86400, "day", "days"), (3600, "hour", "hours"), (60, "minute", "min"), (1, "second", "s")];
+    let mut parts = Vec::new();
+    for (len, one, many) in units {
+        let n = rest / len;
+        rest %= len;
+        if n > 0 { parts.push(format!("{} {}", n, if n == 1 { one } else { many })); }
+    }
+    format!("{}{}", sign, parts.join(" "))
+}
+
 fn main() {
     let args: Vec<String> = std::env::args().skip(1).collect();
     let (mut seed, mut count, mut mode, mut max_commits) = (1u64, 10usize, String::from("filter"), 9usize);
@@ -83,7 +98,7 @@ fn main() {
         file_arg(&mut cli, "--email-rewrite", "email", &o.email_file);
         file_arg(&mut cli, "--author-rewrite", "author", &o.author_file);
         file_arg(&mut cli, "--committer-rewrite", "committer", &o.committer_file);
-        if let Some(sh) = o.shift { cli.push("--date-shift".into()); cli.push(format!("{} seconds", sh)); }
+        if let Some(sh) = o.shift { cli.push("--date-shift".into()); cli.push(render_duration(sh)); }
         if let Some(st) = o.set { cli.push("--date-set".into()); cli.push(st.to_string()); }
         let pmn = |x: u8| match x { 0 => "never", 1 => "auto", _ => "always" };
         cli.push("--prune-empty".into()); cli.push(pmn(o.prune_empty).into());
